@@ -249,6 +249,21 @@ def check_blocks(model, rep):
         ('B3', 'every block column index is below the block width (beyond it lies the neighbouring block)', has(c, '<', n, True) or has(f'{c}.max()', '<', n) or has(f'max({c})', '<', n)),
         ('B4', 'every block column index is non-negative', has(c, '>=', '0', True) or has(c, '>', '-1', True) or has(f'{c}.min()', '>=', '0') or has(f'min({c})', '>=', '0')),
     ]
+    # the all-empty shortcut must describe the same matrix as the general path: its row count may not be a per-block-row value
+    emp = [c_ for c_ in ast.walk(f.node) if isinstance(c_, ast.Call) and src(c_.func) == 'empty' and c_.args and isinstance(c_.args[0], ast.Tuple) and len(c_.args[0].elts) == 2]
+    if len(emp) != 1:
+        raise AnalysisError('assemble_block_csr: the shortcut for blocks without stored values was not found')
+    rows_e = emp[0].args[0].elts[0]
+    per_iter = set()
+    for l in ast.walk(f.node):
+        if isinstance(l, ast.For):
+            assigned = {t.id for s_ in ast.walk(l) if isinstance(s_, ast.Assign) for tt in s_.targets for t in ast.walk(tt) if isinstance(t, ast.Name)}
+            accumulated = {s_.target.id for s_ in ast.walk(l) if isinstance(s_, ast.AugAssign) and isinstance(s_.target, ast.Name)}
+            per_iter |= assigned - accumulated
+    bad_names = sorted({x.id for x in ast.walk(rows_e) if isinstance(x, ast.Name)} & per_iter)
+    rep.ob('R15.9', f.key, f.where(emp[0]), not bad_names, f'the all-empty shortcut takes its row count `{src(rows_e)}` from the accumulated row pointers, like the general path' if not bad_names else
+           f'the all-empty shortcut builds `{src(emp[0])[:60]}` with `{bad_names[0]}`, which is re-assigned for every block row (it holds the height of the LAST block row): with two or more block rows the matrix has too few rows, '
+           'silently', statement='empty-shortcut-rows')
     for oid, text, node in obs:
         ok = node is not None
         exc = facts.raising.get(src(node)) if ok else None
@@ -572,7 +587,7 @@ def check_base_operators(model, rep):
     expect = {
         '__sub__': {'self.__add__(-other)', 'self+-other', 'self+(-other)', 'self.__add__(other.__neg__())', 'self+other.__neg__()'},
         '__rmul__': {'self.__mul__(other)', 'self*other'},
-        '__truediv__': {'self.__mul__(1/other)', 'self*(1/other)', 'self.__mul__(1.0/other)', 'self*(1.0/other)', 'self.__mul__(numpy.reciprocal(other))'},
+        '__truediv__': {'self.__mul__(1/other)', 'self*(1/other)', 'self.__mul__(1.0/other)', 'self*(1.0/other)', 'self.__mul__(numpy.true_divide(1,other))'},   # NOT numpy.reciprocal: integer reciprocal for integer divisors
     }
     for name, accepted in expect.items():
         mem = base.members.get(name)
@@ -587,6 +602,19 @@ def check_base_operators(model, rep):
     ok = any(isinstance(s, ast.Assign) and isinstance(s.targets[0], ast.Subscript) and 'abs(data) > tol' in src(s.targets[0]) and src(s.targets[0]).startswith('supp[row[') and const(s.value) is True
              for s in find_stmts(rs.body, lambda s: isinstance(s, ast.Assign)))
     rep.ob('R15.6', rs.key, rs.where(), ok, 'row support marks rows of entries with |a| > tol' if ok else 'rowsupp no longer marks supp[row[abs(data) > tol]] = True', statement='rowsupp')
+    # sibling overrides of rowsupp in the backends: the comparison with tol is per entry (or of the row maximum), never of a row sum or norm
+    for c in model.subclasses(base, strict=True):
+        mem = c.members.get('rowsupp')
+        if mem is None or mem.func is None:
+            continue
+        cmps = [x for x in ast.walk(mem.func.node) if (isinstance(x, ast.Compare) and 'tol' in src(x)) or (isinstance(x, ast.Call) and src(x.func) in ('numpy.greater', 'numpy.less', 'numpy.greater_equal') and 'tol' in src(x))]
+        if not cmps:
+            rep.info(f'R15.6 {mem.func.key}: comparison with tol not recognised; the override is not decided')
+            continue
+        operand_red = [y for x in cmps for y in ast.walk(x) if isinstance(y, ast.Call) and (method_name(y) in ('sum', 'norm', 'mean', 'dot') or src(y.func) in ('numpy.sum', 'numpy.linalg.norm', 'numpy.add.reduce', 'numpy.add.reduceat'))]
+        okr = not operand_red
+        rep.ob('R15.6', mem.func.key, mem.func.where(), okr, f'{c.name}.rowsupp compares every entry (or the row maximum) with tol, as the base class does' if okr else
+               f'{c.name}.rowsupp compares `{src(operand_red[0])[:50]}` with tol: the base class marks a row when one ENTRY exceeds tol; a row of several small entries whose sum exceeds tol is now marked as supported', statement='rowsupp-sibling')
     # submatrix cache: key is (rows, cols) compared elementwise, both stored with the cached object
     sm = base.members['submatrix'].func
     stores = {src(t) for s in find_stmts(sm.body, lambda s: isinstance(s, ast.Assign)) for t in s.targets}
